@@ -121,7 +121,9 @@ CLAIMED["C05"] = dict(
         "memcheck subset (thorough). "
         "Pipeline level (Props/C05Pipeline): kalignRun_never_fuel, C05_controller_never_faults, C05_path_read_in_bounds hold unconditionally (any score carrier, any comparison "
         "outcomes: all path/kernel/blit accesses in bounds, cut column in range); kalignRun_never_faults_partial reduces 'the composed model never reaches a fault value' to two "
-        "named hypotheses about binary32 values (UPGMA sees finite entries; the meetup contract holds), which core Lean cannot decide. Coverage-guided libFuzzer target as extra search. "
+        "named hypotheses about binary32 values (UPGMA sees finite entries; the meetup contract holds), which core Lean cannot decide. Index safety of the model itself (Props/C05Index): checked twins of the kernels, controllers, profile updates, do_align state vectors, "
+        "UPGMA, k-means lanes and bpm_block -- every array access bounds-tested -- return exactly what the totalised model returns (C05_pipeline_indices_in_range: for every "
+        "input, no precondition), so no default value hides an out-of-range index. Coverage-guided libFuzzer target as extra search. "
         "Software binary32 (Model/SoftFloat.lean: IEEE-754 binary32 in core Lean, tied bit-for-bit to C float by the f32 ops, 1.2M operand pairs, and to the whole program by "
         "kalign_sys_soft): Props/SoftFloat (laws, sentinel absorption, boundedness), C07Soft_seqseq_mon and monHyp_bounded (the Hirschberg meetup contract holds for all "
         "reachable operands with nsip <= 2^17, len_a+len_b < 2^19, no hypothesis about values), kalignRunSoft2_never_faults / kalignRunSoft2_errors: with DP scores and the < 100-sequence guide tree on SoftF32 (ops kalign_sys_soft2, dist_matrix_soft, "
